@@ -297,6 +297,9 @@ func (ex *Exec) load(st *State, p *PtrV, t types.Type, pos string) *Term {
 		name := "[]" + shortTypeName(p.Root)
 		r := ex.getRegion(st, name, ex.p.ArraySort(IntSort, ex.p.ArraySort(IntSort, ex.tm.SortOf(p.Root))))
 		arr := ex.p.Select(r, p.Ref)
+		if c, ok := ex.constBacking[p.Ref]; ok {
+			arr = c
+		}
 		return ex.getAt(arr, p.Path)
 	case PHeap:
 		ex.nonNil(st, p.Ref, "pointer dereference", pos)
